@@ -40,3 +40,12 @@ Proof. intros wd main src bs Hs Hp H. unfold no_panic, compile_source, compile_s
   change (nesting_fuel wd) with (S (63 + List.length (w_fs wd))).
   rewrite (proj1 (FragB.C02_blocks_balanced _ wd main bs H)). reflexivity. Qed.
 Print Assumptions C01_source_no_panic_partial.
+
+(* tie of the dispatcher to the source: the model dispatches exactly the names of frundis.DefaultExporterMacros
+   (Gen/Facts.dispatch_table, regenerated from /repo on every run), each to the model of the handler named there *)
+Require DispatchProofs Facts.
+Theorem C01_dispatch_table_agrees : forall pb,
+  Forall (fun p => DispatchProofs.model_dispatch pb (runes (fst p)) = DispatchProofs.handler_of pb (snd p) /\ DispatchProofs.handler_of pb (snd p) <> None) Facts.dispatch_table.
+Proof. exact DispatchProofs.dispatch_agrees. Qed.
+Theorem C01_dispatch_domain : forall pb n, DispatchProofs.model_dispatch pb n <> None -> In n (map (fun p => runes (fst p)) Facts.dispatch_table).
+Proof. exact DispatchProofs.dispatch_domain. Qed.
